@@ -308,7 +308,7 @@ func c08NilGuards(r *core.Report, fns []*core.Func) {
 					// constructor-assigned?
 					root := fieldOwnerAnon(info, x)
 					if alwaysSet["main."+root+"|"+selectorFieldPath(x)] {
-						key := fmt.Sprintf("%s#deref:%s", f.Key, core.ExprStr(d.at))
+						key := fmt.Sprintf("%s#deref:%s", f.Key, core.KeyStr(f, d.at))
 						cnt[key]++
 						if cnt[key] == 1 {
 							r.OK(rule, key, pos(r, d.at), "field is assigned on every success path of its parse function")
@@ -328,7 +328,7 @@ func c08NilGuards(r *core.Report, fns []*core.Func) {
 			if why == "" {
 				continue
 			}
-			key := fmt.Sprintf("%s#deref:%s", f.Key, core.ExprStr(d.at))
+			key := fmt.Sprintf("%s#deref:%s", f.Key, core.KeyStr(f, d.at))
 			cnt[key]++
 			if cnt[key] > 1 {
 				key = fmt.Sprintf("%s#%d", key, cnt[key])
@@ -494,7 +494,7 @@ func c08Must(r *core.Report, fns []*core.Func, reach map[*core.Func]*core.Func) 
 				}
 			}
 			n++
-			key := fmt.Sprintf("%s#%s(%s)", f.Key, cs.Callee.Name(), argList(cs.Call))
+			key := fmt.Sprintf("%s#%s(%s)", f.Key, cs.Callee.Name(), argList(f, cs.Call))
 			r.Check(!tainted, rule, key, pos(r, cs.Call), "Must* helper is not applied to a request-derived value",
 				cs.Name+" panics on malformed input and is applied to a request-derived value", core.PathTo(reach, f)...)
 		}
@@ -502,10 +502,10 @@ func c08Must(r *core.Report, fns []*core.Func, reach map[*core.Func]*core.Func) 
 	r.Extra["C08_must_calls_in_scope"] = n
 }
 
-func argList(c *ast.CallExpr) string {
+func argList(f *core.Func, c *ast.CallExpr) string {
 	var s []string
 	for _, a := range c.Args {
-		s = append(s, core.ExprStr(a))
+		s = append(s, core.KeyStr(f, a))
 	}
 	return strings.Join(s, ",")
 }
@@ -639,7 +639,7 @@ func c08UseAfterError(r *core.Report, fns []*core.Func) {
 						}
 					}
 					n++
-					key := fmt.Sprintf("%s#%s-after-%s", f.Key, v.Name(), core.Trunc(core.ExprStr(as.Rhs[0]), 50))
+					key := fmt.Sprintf("%s#%s-after-%s", f.Key, core.LocalToken(f, v), core.Trunc(core.KeyStr(f, as.Rhs[0]), 50))
 					if hit != nil {
 						r.Violation(rule, key, pos(r, hit), fmt.Sprintf("%s is used at %s on a path that comes from the `%s != nil` branch of the call that produced it (the branch does not leave the block): nil dereference when the call fails", v.Name(), p.Rel(hit.Pos()), errObj.Name()))
 					} else {
@@ -749,7 +749,7 @@ func c08LocalPtrField(r *core.Report, fns []*core.Func) {
 			}
 			cnt++
 			use := g.NodeOf(d.at.Pos())
-			key := fmt.Sprintf("%s#deref:%s", f.Key, core.ExprStr(d.at))
+			key := fmt.Sprintf("%s#deref:%s", f.Key, core.KeyStr(f, d.at))
 			if use == nil {
 				r.Undecided(rule, key, pos(r, d.at), "use node not found")
 				continue
@@ -831,7 +831,7 @@ func c08Assertions(r *core.Report, fns []*core.Func) {
 					return true
 				}
 				cnt++
-				key := fmt.Sprintf("%s#assert:%s", f.Key, core.ExprStr(x))
+				key := fmt.Sprintf("%s#assert:%s", f.Key, core.KeyStr(f, x))
 				r.Check(okForm[x], rule, key, pos(r, x), "request-derived type assertion uses the comma-ok / type-switch form",
 					"single-value type assertion on a request-derived value: an ill-typed request panics the handler")
 			case *ast.CallExpr:
@@ -845,7 +845,7 @@ func c08Assertions(r *core.Report, fns []*core.Func) {
 								tainted = true
 							}
 						}
-						key := fmt.Sprintf("%s#panic@%s", f.Key, core.Trunc(core.ExprStr(x), 40))
+						key := fmt.Sprintf("%s#panic@%s", f.Key, core.Trunc(core.KeyStr(f, x), 40))
 						r.Check(!tainted, rule, key, pos(r, x), "explicit panic is not guarded by a request-derived condition", "explicit panic reachable under a request-derived condition")
 					}
 				}
@@ -925,7 +925,7 @@ func c08Bounds(r *core.Report, fns []*core.Func) {
 				}
 				nMake++
 				ok2, why := sizeBounded(p, f, g, g.NodeOf(c.Pos()), a)
-				r.Check(ok2, "C08.R8", fmt.Sprintf("%s#make(%s)", f.Key, core.ExprStr(a)), pos(r, c), why,
+				r.Check(ok2, "C08.R8", fmt.Sprintf("%s#make(%s)", f.Key, core.KeyStr(f, a)), pos(r, c), why,
 					"allocation sized by the request-derived expression "+core.ExprStr(a)+" without a dominating bound: a crafted request (e.g. a range whose end precedes its start, making an unsigned difference wrap) panics in makeslice or exhausts memory")
 			}
 			return true
